@@ -36,7 +36,7 @@ func init() {
 	register(&Scenario{ID: "C08S", Run: func(s *kernel.Sim) { runC08(s, false) }})
 }
 
-var c08Classes = []string{"change-flow", "add-flow", "remove-flow", "bad-base64", "invalid-flow", "bad-quota", "gateway-config-only", "change-flow+quota"}
+var c08Classes = []string{"change-flow", "add-flow", "remove-flow", "bad-base64", "invalid-flow", "bad-quota", "gateway-config-only", "change-flow+quota", "shrink-flow"}
 
 func probeFlow(name, url string, status int) string {
 	return flowDef{
@@ -229,6 +229,9 @@ func c08Payload(class string, endpoint string, old map[string]string) (body []by
 	switch class {
 	case "change-flow":
 		flows["f1.yaml"] = probeFlow("f1", "a.com/p1", 421)
+	case "shrink-flow": // an existing file name with shorter content
+		flows["f1.yaml"] = strings.Replace(probeFlow("f1", "a.com/p1", 421), "      - key: body\n        value: f1\n", "", 1)
+		gw = "g: 1\n"
 	case "add-flow":
 		flows["f3.yaml"] = probeFlow("f3", "a.com/p3", 413)
 	case "remove-flow":
